@@ -17,7 +17,15 @@ STM = {
     1: [("T", alpha.I_AX, alpha.I_AY, alpha.L_PLAIN), ("T", ("iri", "http://n/s2"), ("iri", "http://n/p2"), ("lit", "2", None, "http://dt/n2")),
         ("T", ("iri", "http://m/s3"), alpha.I_AY, ("iri", "http://m/o3"))],
 }
-STM[2] = [i + (g,) for i, g in zip([("Q",) + t[1:] for t in STM[1]], [alpha.DEF, ("iri", "http://g/2"), ("iri", "http://g/3")])]
+# variant "rep": consecutive statements share predicate, object and graph, so that a statement following a rejected
+# one elides those slots (what a stale remembered term / stale message field would corrupt)
+STM_REP = {
+    1: [("T", alpha.I_AX, alpha.I_AY, alpha.L_PLAIN), ("T", ("iri", "http://n/s2"), alpha.I_AY, alpha.L_PLAIN),
+        ("T", ("iri", "http://m/s3"), alpha.I_AY, alpha.L_PLAIN)],
+}
+STM_REP[2] = [i + (g,) for i, g in zip([("Q",) + t[1:] for t in STM_REP[1]], [alpha.DEF, ("iri", "http://g/2"), ("iri", "http://g/2")])]
+STM_REP[3] = STM_REP[2]
+STM[2] = [i + (g,) for i, g in zip([("Q",) + t[1:] for t in STM[1]], [alpha.DEF, ("iri", "http://g/2"), ("iri", "http://g/2")])]
 STM[3] = STM[2]
 CAUSES = ["unsupported", "typed_literal_disabled", "arity"]
 SLOTS = ["s", "p", "o", "g", "nested"]
@@ -40,7 +48,8 @@ def make_bad(base, cause, slot, integ, phys):
     if slot == "nested":
         if integ != "generic":
             return None
-        inner = [conv(alpha.I_CZ), conv(("iri", "http://q/inner")), Weird() if cause == "unsupported" else conv(bad_lit)]
+        # first nested term is a blank node (touches no table), the SECOND one is unencodable
+        inner = [conv(("bnode", "q1")), Weird() if cause == "unsupported" else conv(bad_lit), conv(("bnode", "q2"))]
         from pyjelly.integrations.generic.generic_sink import Triple
         out = [conv(t) for t in ts]
         out[2] = Triple(*inner)
@@ -75,7 +84,7 @@ def fault(f: int, cause: int, slot: int, fs: int) -> bool:
         c = alpha.pick(cause, CAUSES)
         sl = alpha.pick(slot, SLOTS)
         dts = 0 if c == "typed_literal_disabled" else P["datatypes"]
-        base = STM[phys]
+        base = (STM_REP if P.get("rep") else STM)[phys]
         if dts == 0:
             base = [tuple(("lit", t[1], None, None) if t[0] == "lit" else t for t in it) if True else it for it in base]
             base = [(it[0],) + tuple(it[1:]) for it in base]
@@ -121,9 +130,20 @@ def fault(f: int, cause: int, slot: int, fs: int) -> bool:
                     faulted = True
                 with notrace():
                     side_effects = snapshot(stream) != before
+                # a caller that simply retries: the same unencodable statement must be rejected again
+                try:
+                    put(make_bad(it, c, sl, integ, phys))
+                    retry_accepted = True
+                except Exception:  # noqa: BLE001
+                    retry_accepted = False
+                if retry_accepted:
+                    return fin(M, bool(side_effects and known.is_open("C20-no-rollback") and not P.get("ignore_known")) and not P.get("twin"),
+                               f=f, cause=cause, slot=slot, fs=fs)
+                with notrace():
+                    side_effects = snapshot(stream) != before
                     if done:
                         try:
-                            got0 = R.decode(done)[0]
+                            got0 = R.decode(done, complete=False)[0]   # a prefix may end inside an open graph
                             prefix_ok = got0 == [norm_item(a) for a in accepted][:len(got0)]
                         except Exception:  # noqa: BLE001
                             prefix_ok = False
